@@ -47,7 +47,7 @@ MANIFEST = dict(
          'unchanged and returns only new objects; in-place operators leave everything separated from the receiver '
          'unchanged. Instancing: a collapse_one run with no template-tagged store or stored value leaves the template '
          'unchanged. Tie (every run): translators regenerate the five Gen tables from vmf.py, keyvalues.py, math.py, '
-         'instancing.py; ~130 named instance obligations (per census label: copy_covers_fields, copy_fresh_mutables, '
+         'instancing.py; 128 named instance obligations (per census label: copy_covers_fields, copy_fresh_mutables, '
          'copy_sources_match, copy_args_lossless, copy_export_equal, export_reads_are_fields; per kv branch; per operator '
          'family; collapse_*; table level incl. all_classes_complete_and_independent); census vs run-time identities, '
          'argument flows vs the real constructors on boundary values, export reads vs traced attribute reads, operator '
